@@ -10,7 +10,7 @@ open HL HL.Utf8 HL.Spec.LexSpec
 
 local notation "LF" => (0x0A : UInt8)
 
-theorem spaces_noLF {sp : Bytes} (h : ∀ c ∈ sp, c = 0x20) : LF ∉ sp := fun hm =>
+theorem spaces_noLF {sp : Bytes} (h : ∀ c ∈ sp, isBlank c = true) : LF ∉ sp := fun hm =>
   absurd (h _ hm) (by decide)
 
 theorem lfOffsetsFrom_append_noLF (i : Nat) (p q : Bytes) (h : LF ∉ p) :
@@ -84,16 +84,16 @@ theorem input_drop_before (z : Z) : z.input.drop z.before.length = z.after := by
   have : z.before.length = z.before.reverse.length := by simp
   rw [Z.input, this, List.drop_left]
 
-theorem mem_take_prefix {sp rest : Bytes} {k : Nat} (hk : k ≤ sp.length) (h : ∀ c ∈ sp, c = 0x20) :
-    ∀ c ∈ (sp ++ rest).take k, c = 0x20 := by
+theorem mem_take_prefix {sp rest : Bytes} {k : Nat} (hk : k ≤ sp.length) (h : ∀ c ∈ sp, isBlank c = true) :
+    ∀ c ∈ (sp ++ rest).take k, isBlank c = true := by
   intro c hc
   rw [List.take_append_of_le_length hk] at hc
   exact h c (List.mem_of_mem_take hc)
 
 /-- the bytes between the lexer position and the start of the next token are exactly the
-    blanks `skipSpaces` stepped over -/
+    blanks and tabs `skipSpaces` stepped over -/
 theorem first_gap {z : Z} {r : Token × Z} (h : Step z r) :
-    ∀ c ∈ (z.input.drop z.before.length).take (r.1.pos.off - z.before.length), c = 0x20 := by
+    ∀ c ∈ (z.input.drop z.before.length).take (r.1.pos.off - z.before.length), isBlank c = true := by
   rw [input_drop_before]
   cases h with
   | tok sp pre hsp hpre hafter hbefore hline hty hpl hpo =>
@@ -107,9 +107,9 @@ theorem gaps_cons (input : Bytes) (prev : Nat) (t : Token) (rest : List Token) :
     gaps input prev (t :: rest) =
       (input.drop prev).take (t.pos.off - prev) ++ gaps input t.stop.off rest := rfl
 
-/-- Cover: everything that lies between the token extents is blanks. -/
+/-- Cover: everything that lies between the token extents is blanks and tabs. -/
 theorem lexS_covered (C : Classes) (n : Nat) (z : Z) (hn : z.after.length ≤ n) :
-    ∀ c ∈ gaps z.input z.before.length (lexS C z), c = 0x20 := by
+    ∀ c ∈ gaps z.input z.before.length (lexS C z), isBlank c = true := by
   induction n generalizing z with
   | zero =>
     have h0 : z.after = [] := List.eq_nil_of_length_eq_zero (by omega)
